@@ -471,6 +471,38 @@ REGRESSION_SELF = {"pro": [("comment", "a"), ("pi", "p", "x")], "root": "<r><k/>
                    "route": "parse", "prepend": False, "new_root": "self"}
 
 
+def in_order(part, whole):
+    """part is a subsequence of whole"""
+    it = iter(whole)
+    return all(any(x == y for y in it) for x in part)
+
+
+def classify(finding, case):
+    """open finding C12-new-root-with-own-siblings: the new root has root-level comments / PIs of its own"""
+    if finding.get("cls") == "new-root-has-own-root-siblings":
+        own = case.get("own")
+        return bool(own and (own[0] or own[1])) and case.get("strict") is True
+    return False
+
+
+def swap_back(src):
+    """the witness of C12-new-root-with-own-siblings: replace the root by a new node and put the old root back"""
+    d = Document(src)
+    before = doc_obs(d)
+    old = d.root
+    d.root = new_tag_node("n")
+    d.root = old
+    after = doc_obs(d)
+    return before, after
+
+
+def replay_open(finding):
+    if finding.get("cls") == "new-root-has-own-root-siblings":
+        before, after = swap_back(finding["witness"]["src"])
+        return (after[0], after[2]) != (before[0], before[2])
+    return False
+
+
 def check_set_root(ctx, cases):
     terms, runs = [], []
     for case in cases:
@@ -491,9 +523,20 @@ def check_set_root(ctx, cases):
                     kids = [c for c in d.root.iterate_children() if isinstance(c, impl.TagNode)]
                     n = kids[0].detach() if kids else new_tag_node("n")
                 elif how == "other-document-root":
-                    other = Document("<!--o1--><o/><?o2 z?>")
+                    # a new root that brings root-level comments / PIs of its own (before, after or both)
+                    own = case.get("own") or [[("comment", "o1")], [("pi", "o2", "z")]]
+                    tgt_pro, tgt_epi = [tuple(m) for m in own[0]], [tuple(m) for m in own[1]]
+                    other = Document("".join(misc_src(m) for m in tgt_pro) + "<o/>" + "".join(misc_src(m) for m in tgt_epi))
                     n = other.root
-                    tgt_pro, tgt_epi = [("comment", "o1")], [("pi", "o2", "z")]
+                elif how == "old-root-back":
+                    # the former root still has the siblings that were copied from it
+                    n = d.root
+                    d.root = new_tag_node("n")
+                    mid = doc_obs(d)
+                    if (mid[0], mid[2]) != (before[0], before[2]):
+                        ctx.fail("replacing the root changed the prologue / epilogue",
+                                 dict(case, before=[before[0], before[2]], after=[mid[0], mid[2]]))
+                    tgt_pro, tgt_epi = before[0], before[2]
                 else:   # "text": rejected
                     n = TextNode("x")
                 name = ("tag", "", n.local_name, [], []) if isinstance(n, impl.TagNode) else ("text", "x")
@@ -508,12 +551,12 @@ def check_set_root(ctx, cases):
             continue
         terms.append("obs_set_root %s %s %s" % (cbool(how == "self"), cdoc(before[0], name if how == "self" else DUMMY, before[2]),
                                                 cdoc(tgt_pro, name, tgt_epi)))
-        runs.append((case, before, name, got, how))
+        runs.append((case, before, name, got, how, (tgt_pro, tgt_epi)))
     vals = ctx.coq_eval("c12_sr_%d" % os.getpid(), REQ, terms, chunk=150)
-    for (case, before, name, got, how), v in zip(runs, vals):
+    for (case, before, name, got, how, own), v in zip(runs, vals):
         ctx.count(1, "set_root/" + how)
         if before[0] or before[2]:
-            ctx.nontrivial_case(("set_root", before[0], before[2], how))
+            ctx.nontrivial_case(("set_root", before[0], before[2], how, own))
         if v is None:
             ctx.mismatch("set_root evaluation", "coqc failed on the case file")
             continue
@@ -521,17 +564,17 @@ def check_set_root(ctx, cases):
             if v != [0]:
                 ctx.mismatch("set_root: the implementation rejects, the model accepts", {"case": case})
             continue
-        if how == "other-document-root":
-            expect_pro, expect_epi = [("comment", "o1")] + before[0], before[2] + [("pi", "o2", "z")]
-        else:
-            expect_pro, expect_epi = before[0], before[2]
-            # the property: prologue and epilogue are kept
-            if got[1] != before[0] or got[2] != before[2]:
-                ctx.fail("replacing the root changed the prologue / epilogue",
-                         dict(case, before=[before[0], before[2]], after=[got[1], got[2]]))
+        brings = how in ("other-document-root", "old-root-back")
+        report = dict(case, before=[before[0], before[2]], after=[got[1], got[2]], own=[list(own[0]), list(own[1])] if brings else None)
+        # the property, for every new root: the old prologue and epilogue are still there, in order
+        if not in_order(before[0], got[1]) or not in_order(before[2], got[2]):
+            ctx.fail("replacing the root lost (part of) the prologue / epilogue", dict(report, strict=False))
+        # ... and nothing else is there (known not to hold when the new root has root-level siblings of its own:
+        # open finding C12-new-root-with-own-siblings)
+        elif got[1] != before[0] or got[2] != before[2]:
+            ctx.fail("replacing the root changed the prologue / epilogue", dict(report, strict=True), classify)
         if v != [1] + enc_doc(got[1], name, got[2]):
-            ctx.mismatch("set_root / copy_root_siblings vs Document.root setter",
-                         {"case": case, "impl": got[1:], "model_expected": [expect_pro, expect_epi]})
+            ctx.mismatch("set_root / copy_root_siblings vs Document.root setter", {"case": case, "impl": got[1:]})
 
 
 # --------------------------------------------------------------------------------------------------
@@ -679,7 +722,7 @@ def run(ctx, args):
                 check_set_root(ctx, [normalise_case(case)])
             elif case and "src" in case:
                 check_strip(ctx, [{"src": case["src"]}])
-            return ctx.finish("replay of " + args.replay)
+            return ctx.finish("replay of " + args.replay, replay_open=replay_open)
         quick = ctx.tier == "quick"
         n_docs = 120 if quick else 1200
         per_doc = 5 if quick else 10
@@ -697,9 +740,15 @@ def run(ctx, args):
             streams.append((s, r < 0.2 or r > 0.9, 0.1 < r < 0.2 or r > 0.8))
         streams += [(s, False, False) for s in ILL_FORMED]
         check_reader(ctx, streams)
-        hows = ["new", "clone", "self", "detached-child", "other-document-root", "text"]
-        check_set_root(ctx, [dict(REGRESSION_SELF)]
-                       + [dict(dc, new_root=hows[i % len(hows)]) for i, dc in enumerate(docs[:90 if quick else 1000])])
+        hows = ["new", "clone", "self", "detached-child", "other-document-root", "old-root-back", "other-document-root", "text"]
+        sr_cases = [dict(REGRESSION_SELF)]
+        for i, dc in enumerate(docs[:100 if quick else 1000]):
+            c = dict(dc, new_root=hows[i % len(hows)])
+            if c["new_root"] == "other-document-root":
+                shape = [(1, 0), (0, 1), (1, 1), (2, 1), (0, 2)][(i // len(hows)) % 5]
+                c["own"] = [[gen_misc(ctx.rng, "ascii") for _ in range(shape[0])], [gen_misc(ctx.rng, "ascii") for _ in range(shape[1])]]
+            sr_cases.append(c)
+        check_set_root(ctx, sr_cases)
         check_strip(ctx, [dc for dc in docs[:90 if quick else 1000]])
     finally:
         shutil.rmtree(SCRATCH, ignore_errors=True)
@@ -710,10 +759,12 @@ def run(ctx, args):
              "x newline {None, LF, CRLF; thorough: also '', CR} x format {none, 6 FormatOptions incl. width > 0}; via save, write "
              "and str(); every written document re-read with Document(bytes) and lxml. Reader model: random streams of "
              "declaration variants, comments/PIs, whitespace around <r/> plus %d ill-formed streams. Root replacement: new node, "
-             "clone, detached child, another document's root, a text node. Parser options: on every document the three option sets with fresh "
+             "clone, itself, detached child, a text node, and new roots that bring root-level comments/PIs of their own (another "
+             "document's root with 1-3 siblings before/after/both; the former root put back). Parser options: on every document the three option sets with fresh "
              "ParserOptions objects, one ParserOptions object reused for nine loads with its attributes changed in between (all four "
              "combinations, both directions), and the options object taken from an existing document's config. Non-trivial = at least one root sibling and a non-default encoding/newline/format (serialize), siblings "
              "present (reader, set_root), something dropped (strip)." % (len(ROOTS), len(ILL_FORMED)),
+        replay_open=replay_open,
         explanation="The bytes compared are produced by the implementation (Document.save/write, str) and, independently, by "
                     "evaluating the Gallina doc_serialize/nl_out in Coq on the document's prologue/epilogue and the real root "
                     "serialization, then encoding with the Python codec.")
